@@ -51,15 +51,18 @@ LEVEL.update({
             'per-class partition, latency lists, completed-once) for every run of the model loop; correspondence of whole '
             'runs incl. the returned SimulatorStats for all shipped schedulers. Partial: numpy mean/percentile rounding '
             '(tolerance 1e-9).', '6 C06'),
-    'C08': ('proof', 'Per-round admissibility theorems for the shipped policies (naive/starter/overbook: no oversell, pool '
-            'range, operator count; scheduler functions total under stated invariants) and totality of the statistics '
-            'epilogue; the closed-loop claim "never raises" is decided by correspondence of whole runs at scale (the '
-            'implementation must return normally exactly when the model does) plus the monitor. Partial: closed-loop '
-            'safety for priority/priority-pool is not a theorem. One recorded finding (priority-pool in single-operator mode).',
+    'C08': ('proof', 'Closed-loop theorems: for naive and the starter template in both container modes and for overbook '
+            'with overcommit, every run over well-formed DAG pipelines with non-empty scripts reaches its last tick '
+            'without an error (invariant over all reachable simulator states: running containers hold dependency-closed '
+            'chains, scheduler queues hold ready operators, decisions pass every executor check); per-round '
+            'admissibility theorems; totality of the statistics epilogue. For priority/priority-pool the closed-loop '
+            'claim is decided by correspondence of whole runs at scale (the implementation must return normally exactly '
+            'when the model does) plus the monitor (partial). One recorded finding (priority-pool in single-operator mode).',
             '6 C08'),
     'C12': ('proof', 'Per-round contracts of the priority policy from every queue/pool state: scan is a queue prefix, stops '
             'only on depletion, strict class order, work conservation w.r.t. the post-batch snapshot, suspension rules, '
-            'suspended work re-offered; correspondence on contended runs with preemption. ', '6 C12'),
+            'suspended work re-offered; correspondence on contended runs with preemption; the order / work-conservation / '
+            'no-suspension clauses are also monitored on priority-pool runs (shared pool 0, batch pool 1).', '6 C12'),
     'C14': ('proof', 'Cell-level theorems for all row lists / all well-formed pipelines: read(write ps) = ps, write(read rows) '
             '= rows for writer-format files, every listed malformation refused, acceptance iff the rules hold; '
             'correspondence through the real csv reader/writer incl. malformed and benign variations. Partial: csv module '
